@@ -208,6 +208,9 @@ func checkC04(c *FileCase) *Violation {
 				return viol("crash", "opt=%v %s\n--- source\n%s", opt, res.Describe(), src)
 			}
 			st.Label("rejected")
+			if c.Meta["stray"] != "" {
+				st.Label("stray-continue-rejected")
+			}
 			st.Note("last_rejection", clip(res.Err.Error()+"\n"+src, 800))
 			return nil
 		}
@@ -234,6 +237,61 @@ func checkC04(c *FileCase) *Violation {
 }
 
 func genC04(t *rapid.T) *FileCase {
+	c := genC04Base(t)
+	if rapid.IntRange(0, 7).Draw(t, "straycontinue") == 0 {
+		// a 'continue' that is not the last statement of its block, somewhere inside a loop: rejected by
+		// the compiler as it stands (the case is then skipped); a compiler that accepts it must still keep
+		// every label written after it. Blocks of poryswitch cases are left alone (known finding of C12/C20).
+		var blocks []*Block
+		var inLoop func(b *Block)
+		inLoop = func(b *Block) {
+			if b == nil {
+				return
+			}
+			if len(b.Stmts) >= 1 {
+				blocks = append(blocks, b)
+			}
+			for _, s := range b.Stmts {
+				switch s.K {
+				case "if":
+					for _, a := range s.If.Arms {
+						inLoop(a.Body)
+					}
+					inLoop(s.If.Else)
+				case "while":
+					inLoop(s.While.Body)
+				case "dowhile":
+					inLoop(s.Do.Body)
+				case "switch":
+					for _, cs := range s.Switch.Cases {
+						inLoop(cs.Body)
+					}
+				}
+			}
+		}
+		for _, sc := range c.File.Scripts() {
+			walkStmts(sc.Body, func(s *Stmt) {
+				if s.K == "while" {
+					inLoop(s.While.Body)
+				} else if s.K == "dowhile" {
+					inLoop(s.Do.Body)
+				}
+			})
+		}
+		if len(blocks) > 0 {
+			b := blocks[rapid.IntRange(0, len(blocks)-1).Draw(t, "strayblock")]
+			pos := rapid.IntRange(0, len(b.Stmts)-1).Draw(t, "straypos")
+			b.Stmts = append(b.Stmts[:pos], append([]*Stmt{sContinue()}, b.Stmts[pos:]...)...)
+			if c.Meta == nil {
+				c.Meta = map[string]string{}
+			}
+			c.Meta["stray"] = "continue"
+		}
+	}
+	return c
+}
+
+func genC04Base(t *rapid.T) *FileCase {
 	if rapid.IntRange(0, 2).Draw(t, "kitchen") == 0 {
 		return genKitchenCase(t, 0, 4)
 	}
@@ -251,7 +309,7 @@ func TestC04_Regress(t *testing.T) { runRegress(t, "C04") }
 
 func TestC04_Closed(t *testing.T) {
 	st := stat("C04")
-	st.SetRule("whole files (scripts with the C01 control-flow grammar incl. labels in dead code and after break/end/return/goto, inline text and moves(), texts, movements, marts, mapscripts with inline scripts and tables, raw blocks; one file in three also has AutoVar conditions, statement poryswitch, constants and symbolic case values), optimize off and on; checks on the parsed output: every label defined once, every generated jump/case target, inline map-script target and hoisted argument defined, every user label present once, no instruction can fall into data / the next top-level block / the end of the output. non-trivial = a user label after break/continue/end/return/goto in its block or inside a switch case body, or >=2 scripts with >=2 hoisted blocks; distinct by source text")
+	st.SetRule("whole files (scripts with the C01 control-flow grammar incl. labels in dead code and after break/end/return/goto, inline text and moves(), texts, movements, marts, mapscripts with inline scripts and tables, raw blocks; one file in three also has AutoVar conditions, statement poryswitch, constants and symbolic case values; one file in eight gets a 'continue' that is not last in its block - rejected as the compiler stands, and then skipped), optimize off and on; checks on the parsed output: every label defined once, every generated jump/case target, inline map-script target and hoisted argument defined, every user label present once, no instruction can fall into data / the next top-level block / the end of the output. non-trivial = a user label after break/continue/end/return/goto in its block or inside a switch case body, or >=2 scripts with >=2 hoisted blocks; distinct by source text")
 	st.Assume("user-chosen names do not imitate generated names (generator never produces *_<digits>, *_Text_<n>, *_Movement_<n>)")
 	runRapid(t, "C04", "TestC04_Closed", genC04, checkC04, fileCaseSrc)
 }
